@@ -100,10 +100,16 @@ def put(changes, kind, k, i, path, value):
         changes.setdefault("lines", {}).setdefault(k, {}).setdefault(i, {})[path] = value
 
 
-def pad_content(leaf, rng):
+def pad_content(leaf, rng, style=None):
     filler = product.Filler(rng, "decoy")
     for _ in range(20):
-        v = filler.padding(leaf.node, leaf.width, leaf.codec)
+        if leaf.codec == "A-str" and style is not None:
+            # text areas: any printable ASCII - once as free text (certainly not a number), once as numbers
+            v = product.V.filler_text(leaf.width, rng, "printable" if style == "text" else "numbers")
+            if style == "text":
+                v = (rng.choice("ABCXYZ#~") + v[1:])[: leaf.width]
+        else:
+            v = filler.padding(leaf.node, leaf.width, leaf.codec)
         if v is not None and layout.encode_leaf(leaf.codec, leaf.width, v) != layout.encode_leaf(leaf.codec, leaf.width, leaf.value):
             return v
     return None
@@ -174,7 +180,7 @@ def run_case(case):
         rng = random.Random(case.get("sseed", case.get("index", 0)))
         picked = [tg[case["index"]]] if mode == "pad-one" else tg
         for kind, k, i, leaf in picked:
-            v = pad_content(leaf, rng)
+            v = pad_content(leaf, rng, case.get("style"))
             if v is not None:
                 put(changes, kind, k, i, leaf.path, v)
         vspec, vinfo, flat, err = open_variant(spec, info, changes)
@@ -275,9 +281,14 @@ def enum_cases(tier):
                     if key in seen:
                         continue
                     seen.add(key)
-                yield {"base": name, "mode": mode, "index": index}
-        for sseed in range(3 if tier == "quick" else 40):
-            yield {"base": name, "mode": "pad-all", "sseed": sseed}
+                if mode == "pad-one":
+                    yield {"base": name, "mode": mode, "index": index, "style": "text"}
+                    if leaf.codec == "A-str":
+                        yield {"base": name, "mode": mode, "index": index, "style": "numbers"}
+                else:
+                    yield {"base": name, "mode": mode, "index": index}
+        for sseed in range(4 if tier == "quick" else 40):
+            yield {"base": name, "mode": "pad-all", "sseed": sseed, "style": ["text", "numbers", None, None][sseed % 4]}
 
 
 def byte_cases():
